@@ -97,3 +97,7 @@ Definition check_u_rational (rows : list (list Qc)) (linear : bool) (vib : list 
   let p := mkParams T SS_1atm LF_igm z z 1%nat (Q2Qc 1) in
   (* with oexp := 0 every harmonic term is k_B x / (0 - 1): subtract it again *)
   rclose tol9 (internal_energy QO sp p - internal_vib_energy QO sp p)%Qc expect.
+
+(* the hand model of Atoms.are_linear (Model.are_linear_q) against species.is_linear() *)
+Definition check_are_linear (rows : list (list Qc)) (tol : Qc) (expect : bool) : bool :=
+  Bool.eqb (are_linear_q tol (mk_atoms rows)) expect.
